@@ -59,7 +59,14 @@ Verdict(rec) ==
         LowerB == LET f(p) == Min3(C[p][1], C[p][2], C[p][3]) IN MapThenSumSet(f, Pairs(U))
         Complete == IsCompleteDS(D)
         \* ------------------------------------------------------------ C03
-        V03 == IF ~Got THEN <<"skip", rec.out>>
+        \* a documented refusal ("refused:...") is not an accepted input; any other exception on a valid input is a
+        \* failure to deliver the consensus (the stand-in's own limits and watchdog expiries are not verdicts)
+        Crashed == rec.out \notin {"consensus", "timeout", "setup-failed", "error:CplexError"}
+                   /\ rec.out \notin {"refused:ScoringSchemeNotHandledException",
+                                      "refused:InompleteRankingsIncompatibleWithScoringSchemeException",
+                                      "refused:IncompatibleArgumentsException"}
+        V03 == IF Crashed THEN <<"viol", "C03:fails-instead-of-returning-a-consensus">>
+               ELSE IF ~Got THEN <<"skip", rec.out>>
                ELSE IF ~Count THEN <<"viol", "C03:count">>
                ELSE IF ~Shape THEN <<"viol", "C03:buckets">>
                ELSE IF ~Over THEN <<"viol", "C03:universe">>
